@@ -38,6 +38,8 @@ N_SHARDS = 4
 
 VAL_CONTAINERS = ["numpy", "numpy_strided", "numpy_offset", "pandas", "numpy", "numpy_readonly", "pandas_arrow", "polars", "arrow", "arrow_chunked", "numpy_offset", "polars_nulls", "pandas_arrow_nulls"]
 KEY_CONTAINERS = ["numpy", "numpy_strided", "numpy_readonly", "pandas", "arrow_chunked", "polars"]
+# raw accessors of the grouping itself: what they hand out must not be a writable handle on its state
+ACC_OPS = ["group_ikey", "ikey_count", "count_ikey", "result_index", "key_count", "groups"]
 FN_OPS = ["fn_ema", "fn_ema_grouped", "fn_group_sum", "fn_group_min", "fn_group_first", "fn_group_mean", "fn_cumsum", "fn_cummax", "fn_rolling_sum", "fn_rolling_max", "fn_shift"]
 
 RULE = (
@@ -282,6 +284,14 @@ def scribble(res, probes):
                 raw(res.values)
             except Exception:
                 pass
+            try:
+                if isinstance(res, pd.MultiIndex):
+                    res.names = ["__scribbled__"] * res.nlevels
+                else:
+                    res.name = "__scribbled__"
+                probes.add("scribbled_index_name")
+            except Exception:
+                pass
 
 
 # ---------------------------------------------------------------------------
@@ -387,8 +397,11 @@ def gen_scenario(scen: Choices, cls, cfg):
         b_ = scen.begin()
         if not scen.forced(1 if len(steps) < nsteps else 0):  # "one more step?"
             break
-        kind = scen.weighted([(10, "op"), (3, "fn"), (2, "failing_call")])
-        if kind == "op":
+        kind = scen.weighted([(10, "op"), (3, "fn"), (2, "failing_call"), (2, "acc")])
+        if kind == "acc":
+            name = ACC_OPS[scen.draw(len(ACC_OPS))]
+            step = {"kind": "acc", "op": {"op": name, "cols": [0], "mask": gen.gen_mask(scen, ds, ("none", "bool")) if name == "count_ikey" else {"kind": "none"}}}
+        elif kind == "op":
             fam = scen.weighted([(4, "basic"), (2, "composite"), (3, "rowwise"), (3, "select")])
             step = {"kind": "op", "op": ops.gen_op(scen, fam, ds, mask_kinds=("none", "bool", "slice", "positions"))}
         elif kind == "fn":
@@ -608,8 +621,22 @@ def execute(sc, sched: Choices, cls, cfg):
             # the timestamps are a caller-owned buffer too (int64 views of them are taken inside)
             owned_times = own_array(ops.build_times(ds, op), ["numpy", "numpy_strided", "pandas", "numpy_offset"][si % 4])
         fp_times0 = fingerprints([owned_times]) if owned_times is not None else None
+        owned_subset = None
+        if op["op"] == "subset_ratio":
+            # the subset mask is a caller-owned buffer like the (global) mask
+            sub = np.array(op["subset"], dtype=bool)
+            if si % 3 == 2:
+                b_ = sub.copy()
+                owned_subset = Owned(pd.Series(b_, index=_CLIENT_INDEX[0], copy=False), [b_], "pandas")
+            else:
+                owned_subset = own_array(sub, ["numpy", "numpy_strided"][si % 3])
+        fp_subset0 = fingerprints([owned_subset]) if owned_subset is not None else None
 
         def do_call(target):
+            if kind == "acc":
+                if op["op"] == "count_ikey":
+                    return target.count_ikey(mask_obj)
+                return getattr(target, op["op"])
             if kind == "fn":
                 return call_fn_op(op, owned_codes.obj, fn_ngroups, owned_vals[0].obj, mask_obj)
             values = values_obj(op["cols"])
@@ -623,7 +650,7 @@ def execute(sc, sched: Choices, cls, cfg):
                     values = np.concatenate([a, a[:1]])
                 elif fk == "bad_mask_len":
                     m = np.ones(n + 1, dtype=bool)
-            return ops.call_op(target, op, values, m, dso, times=None if owned_times is None else owned_times.obj, wrappers=facades if target is gb else None, raw_keys=keys_obj())
+            return ops.call_op(target, op, values, m, dso, times=None if owned_times is None else owned_times.obj, wrappers=facades if target is gb else None, raw_keys=keys_obj(), subset_mask=None if owned_subset is None else owned_subset.obj)
 
         this_fault = fault if (fault is not None and fault_step == si) else None
         ctxr = new_ctx(this_fault)
@@ -644,6 +671,9 @@ def execute(sc, sched: Choices, cls, cfg):
         if owned_times is not None and fingerprints([owned_times]) != fp_times0:
             rec["violations"].append({"site": {"property": PROP, "check": "inputs_unchanged", "op": opname, "outcome": "input_mutated"}, "features": dict(feats_base, **extra), "expected": "timestamps buffer unchanged", "actual": "timestamps changed"})
             fp_times0 = fingerprints([owned_times])
+        if owned_subset is not None and fingerprints([owned_subset]) != fp_subset0:
+            rec["violations"].append({"site": {"property": PROP, "check": "inputs_unchanged", "op": opname, "outcome": "input_mutated"}, "features": dict(feats_base, **extra), "expected": "subset mask buffer unchanged", "actual": "subset mask changed"})
+            fp_subset0 = fingerprints([owned_subset])
         if inv0 is not None:
             try:
                 inv = c13._row_labels(gb)
@@ -677,6 +707,8 @@ def execute(sc, sched: Choices, cls, cfg):
             scribbled_and_repeated = True
             probes.add("repeat_after_scribble")
             for label, rr in (("repeat_same_object", r2), ("repeat_fresh_object", r3)):
+                if label == "repeat_fresh_object" and kind == "acc" and op["op"] == "group_ikey":
+                    continue  # the codes are representation-level (chunk-local before unification)
                 if rr[0] != "ok":
                     d = f"{rr[1]}: {rr[2]}"
                     outc = "raises_vs_returns"
